@@ -75,3 +75,13 @@ def int_to_string(e, c, a):
     if not v.conc():
         raise Unsupported("to_string of a symbolic integer")
     return VecObj([Int(8, 0, b) for b in str(v.sval()).encode()], "String")
+
+
+@model(r"^core::bool::<impl bool>::then_some::<|^<impl bool>::then_some::<|^bool::then_some::<")
+def bool_then_some(e, c, a):
+    return some(a[1]) if e.branch(a[0]) else none()
+
+
+@model(r"^core::bool::<impl bool>::then::<|^<impl bool>::then::<|^bool::then::<")
+def bool_then(e, c, a):
+    return some(e.call_closure(a[1], [])) if e.branch(a[0]) else none()
